@@ -90,8 +90,9 @@ def stores_for(r, base, blks):
     for off, ln in blks:
         pos = off
         pieces = []
+        wide = r.random() < 0.15                      # now and then ONE stored value of up to 255 bytes for a whole block
         while pos < off + ln:
-            w = min(r.choice([1, 2, 4, 4, 8, 8, 16, 3, 5]), off + ln - pos)
+            w = min(r.choice([1, 2, 4, 4, 8, 8, 16, 3, 5]) if not wide else 255, off + ln - pos)
             pieces.append((base + pos, w, content(r, w)))
             pos += w
         if r.random() < 0.5:
